@@ -59,6 +59,8 @@ class C24(Property):
 
     # ------------------------------------------------------------------------------------------------------------
     def _setup(self, ctx: Ctx):
+        import logging
+        logging.getLogger("streamflow").setLevel(logging.ERROR)
         self.gen = getattr(self, "gen", 0) + 1
         self.table = cmdtmpl.table(os.environ.get("SFV_REPO", "/repo"))
         self.by_op: dict[str, list[dict]] = {}
@@ -272,7 +274,7 @@ class C24(Property):
             return "symlink_to:target-with-leading-dash-read-as-option"
         if name == "write_text" and lres == ["error"] and isinstance(rres, int):
             return "write_text:failure-of-tee-is-not-reported"
-        if name == "read_text" and lres == ["error"] and isinstance(rres, str) and ent and ent[0] == "f":
+        if name == "read_text" and lres == ["error"] and isinstance(rres, str) and ent and ent[0] in ("f", "l"):
             return "read_text:non-utf8-content-replaced-remotely-error-locally"
         if name == "read_text" and isinstance(lres, str) and isinstance(rres, str):
             if lres.strip() == rres:
